@@ -1136,6 +1136,11 @@ class Executor:
                     return x.add(y)
                 if op == '-' and isinstance(y, Ptr) and y.obj is x.obj:
                     return int_binop('-', x.off, y.off, 64, False)
+                # alignment tests on an address: allocations of 16 bytes or more are 8-byte aligned (Go size
+                # classes; smaller pointer-free objects may come from the tiny allocator with any alignment)
+                if isinstance(y, int) and x.obj is not None and x.obj.size >= 16 and ((op == '%' and y in (2, 4, 8)) or (op == '&' and y in (1, 3, 7))):
+                    m = y if op == '%' else y + 1
+                    return int_binop('%', x.off, m, 64, False)
                 raise Unsupported('pointer arithmetic ' + op)
             yw = None
             if op in ('<<', '>>'):
